@@ -26,6 +26,11 @@ def gen(r, algo=None, focus=None, tier="quick"):
     else:
         ram = F(r.choice(["0.25", "0.5", "1", "3.3", "8", "10.3", "16", "64", "256", "1000"]))
     multi = r.random() < 0.6
+    if focus == "C17":
+        # naive hands out whole pools: failures need operators larger than a pool, and the
+        # interesting histories need one pipeline running on several pools at once
+        pools = r.choice([1, 2, 2, 3, 3, 4])
+        multi = r.random() < 0.4
     if algo == "priority-pool" and r.random() < 0.95:
         multi = True      # known finding D3 lives at multi=False; aimed at in ~5 % of runs
     over = True if algo == "overbook" else r.random() < 0.15
@@ -53,6 +58,19 @@ def gen_pipes(r, nticks, tps, ram, focus=None, max_ops=5):
         mix = r.choice([(3, 1, 3), (2, 0, 3), (4, 1, 2), (1, 1, 1)])
     mem_fr = r.choice([[0.01, 0.03, 0.05], [0.03, 0.08, 0.15, 0.3], [0.08, 0.2, 0.45, 0.7], [0.01, 0.1, 0.6, 1.3]])
     dur_kinds = r.choice([(0, 1, 2, 3), (1, 2, 5, 8), (0, 0, 1, 4, 12), (3, 8, 20)])
+    shapes = ["chain", "chain", "fanout", "fanin", "diamond", "multiroot", "random"]
+    if focus == "C17":
+        mem_fr = r.choice([[0.05, 0.2, 0.5, 1.2], [0.1, 0.3, 0.6, 0.9, 1.1, 1.5], [0.02, 0.5, 1.05]])
+        dur_kinds = r.choice([(1, 2, 3), (1, 2, 5, 8), (2, 4, 6)])
+        cap = r.choice([2, 4, 8, 20])
+        load = r.choice([0.1, 0.25, 0.6])
+        shapes = ["fanout", "multiroot", "multiroot", "random", "diamond", "chain"]
+        max_ops = 6
+    wide = focus == "C17" and r.random() < 0.4
+    slowparent = focus == "C17" and not wide and r.random() < 0.6
+    if slowparent:
+        cap = r.choice([10, 20, 40])
+        load = r.choice([0.25, 0.6])
     pipes = []
     burst_at = r.randint(0, max(0, nticks // 2))
     for t in range(max(nticks, 1)):
@@ -66,7 +84,7 @@ def gen_pipes(r, nticks, tps, ram, focus=None, max_ops=5):
                 break
             prio = r.choices(PRIOS, weights=mix)[0] if sum(mix) else "BATCH_PIPELINE"
             nops = 1 if (prio == "QUERY" and r.random() < 0.7) else r.randint(1, max_ops)
-            shape = r.choice(["chain", "chain", "fanout", "fanin", "diamond", "multiroot", "random"])
+            shape = r.choice(shapes)
             par = dag_parents(r, nops, shape)
             ops = []
             for oi in range(nops):
@@ -87,6 +105,32 @@ def gen_pipes(r, nticks, tps, ram, focus=None, max_ops=5):
                         mem = r.choice([F(0), fr * ram, fr * ram, fr * ram / 2])
                     segs.append([fstr(b), law, None if mem is None else fstr(mem), fstr(read)])
                 ops.append({"par": par[oi], "segs": segs})
+            if focus == "C17" and slowparent:
+                # [slow root R1, child C of R1, D that grows until it is OOM-killed]: C becomes ready while D is
+                # still running and the pools are busy, so when D fails an earlier ready PENDING operator exists
+                d1 = r.randint(6, 20)
+                small = fstr(ram / 50)
+                big = fstr(ram * F(r.choice([12, 20, 30]), 10))
+                dseg = [fstr(F(2, tps)), "const", big, "0"] if r.random() < 0.6 else ["0", "const", None, big]
+                # (operators are visited in topological BFS order: R1, R2, C, D)
+                ops = [{"par": [], "segs": [[fstr(F(d1, tps) + F(1, 3 * tps)), "const", small, "0"]]},
+                       {"par": [], "segs": [[fstr(F(r.randint(1, 3), tps) + F(1, 3 * tps)), "const", small, "0"]]},
+                       {"par": [0], "segs": [[fstr(F(r.randint(1, 4), tps) + F(1, 3 * tps)), "const", small, "0"]]},
+                       {"par": [1], "segs": [dseg]}]
+                if r.random() < 0.5:
+                    ops.append({"par": [r.choice([0, 2])], "segs": [[fstr(F(2, tps)), "const", small, "0"]]})
+            if focus == "C17" and wide and nops >= 3:
+                # wide pipelines (mostly roots) with one operator that cannot fit any pool, late in insertion
+                # order: while it fails, earlier siblings are still pending or running on other pools
+                for o in ops:
+                    o["par"] = [q for q in o["par"] if q == 0 and r.random() < 0.3]
+                    for sg in o["segs"]:
+                        if sg[2] is not None:
+                            sg[2] = fstr(F(sg[2]) / 4)
+                        else:
+                            sg[3] = fstr(F(sg[3]) / 4)
+                big = r.randint(nops // 2, nops - 1)
+                ops[big]["segs"][0][2] = fstr(ram * F(r.choice([11, 15, 30]), 10))
             pipes.append({"prio": prio, "at": t, "ops": ops})
     if not pipes and nticks > 0 and r.random() < 0.9:
         pipes.append({"prio": r.choice(PRIOS), "at": 0,
